@@ -16,6 +16,7 @@ from __future__ import annotations
 import ast
 
 from ..astutil import AnalysisError, dotted, src, walk_local, walk_ordered, calls_in
+from .. import pattern as P
 from ..rules import roles
 from ..rules import views
 
@@ -119,7 +120,7 @@ def rule_usage(run):
     init = rp.func("EntityTemplate.__init__")
     cu = rp.func("EntityTemplate.__init__.<locals>.check_usage")
     top = [s for s in cu.node.body if isinstance(s, ast.If)]
-    wr = [s for s in top if "AccessFlags.WRITE" in src(s.test) and "AccessFlags.PUSH" in src(s.test)]
+    wr = [s for s in top if "AccessFlags.WRITE" in P.T(s.test) and "AccessFlags.PUSH" in P.T(s.test)]
     ok = bool(wr) and isinstance(wr[0].test, ast.BoolOp) and isinstance(wr[0].test.op, ast.Or)
     run.ob(ok, "EntityTemplate.check_usage", file=rp.rel, line=cu.node.lineno, detail="writer-flags", expected="access is WRITE or access is PUSH", found=src(wr[0].test) if wr else "missing")
     if not wr:
@@ -134,23 +135,23 @@ def rule_usage(run):
         extra = [x for x in g if x not in ("if isinstance(obj, Port) and obj.is_input()", "if " + src(w.test))]
         run.ob(not extra, "EntityTemplate.check_usage", file=rp.rel, line=inp[0].lineno, detail="input-port-write.guards", expected="no further condition", found=str(extra) if extra else "ok")
     asserts = [a for a in walk_local(w) if isinstance(a, ast.Assert)]
-    ok = any("written_in[obj_root] is current_ctx" in src(a.test) for a in asserts)
+    ok = any("written_in[obj_root] is current_ctx" in P.T(a.test) for a in asserts)
     run.ob(ok, "EntityTemplate.check_usage", file=rp.rel, line=w.lineno, detail="single-writer", expected="assert written_in[root] is current_ctx", found="ok" if ok else "; ".join(src(a.test) for a in asserts))
-    t = src(w)
+    t = P.T(w)
     ok = "obj_root = obj._root" in t and "written_in[obj_root] = current_ctx" in t and "obj_root in written_in" in t
     run.ob(ok, "EntityTemplate.check_usage", file=rp.rel, line=w.lineno, detail="keyed-by-root", expected="bookkeeping keyed by obj._root", found="ok" if ok else "changed")
-    kinds = [src(c.args[1]) for c in calls_in(w) if dotted(c.func) == "isinstance" and dotted(c.args[0]) == "obj" and "Signal" in src(c.args[1])]
+    kinds = [src(c.args[1]) for c in calls_in(w) if dotted(c.func) == "isinstance" and dotted(c.args[0]) == "obj" and "Signal" in P.T(c.args[1])]
     run.ob(kinds == ["(Signal, Variable, Temporary)"], "EntityTemplate.check_usage", file=rp.rel, line=w.lineno, detail="writer-kinds", expected="(Signal, Variable, Temporary)", found=str(kinds))
     # context-local objects
     loc = [s for s in top if src(s.test) in ("isinstance(obj, (Temporary, Variable))", "isinstance(obj, (Variable, Temporary))")]
-    ok = bool(loc) and any("used_in[obj_root] is current_ctx" in src(a.test) for a in walk_local(loc[0]) if isinstance(a, ast.Assert))
+    ok = bool(loc) and any("used_in[obj_root] is current_ctx" in P.T(a.test) for a in walk_local(loc[0]) if isinstance(a, ast.Assert))
     run.ob(ok, "EntityTemplate.check_usage", file=rp.rel, line=cu.node.lineno, detail="context-local", expected="Temporary/Variable used in one context only (every access, any flag)", found="ok" if ok else "changed")
     # applied to all contexts
     loops = [l for l in init.node.body if isinstance(l, ast.For)]
-    ctx_loop = [l for l in loops if src(l.iter) == "self.all_contexts()"]
-    ok = bool(ctx_loop) and "current_ctx = " + ctx_loop[0].target.id in src(ctx_loop[0]) and f"{ctx_loop[0].target.id}.visit_objects(check_usage)" in src(ctx_loop[0])
+    ctx_loop = [l for l in loops if P.T(l.iter) == "self.all_contexts()"]
+    ok = bool(ctx_loop) and "current_ctx = " + ctx_loop[0].target.id in P.T(ctx_loop[0]) and f"{ctx_loop[0].target.id}.visit_objects(check_usage)" in P.T(ctx_loop[0])
     run.ob(ok, "EntityTemplate.__init__", file=rp.rel, line=init.node.lineno, detail="all-contexts", expected="for ctx in self.all_contexts(): current_ctx = ctx; ctx.visit_objects(check_usage)", found="ok" if ok else "changed")
-    blk_loop = [l for l in loops if src(l.iter) == "self.all_blocks()"]
+    blk_loop = [l for l in loops if P.T(l.iter) == "self.all_blocks()"]
     if not blk_loop:
         raise AnalysisError("instance output loop not found")
     bl = blk_loop[0]
@@ -173,13 +174,13 @@ def rule_usage(run):
         missing = [x for x in allowed if x not in g and not x.startswith("unless isinstance(sig_root")]
         run.ob(not extra and not missing, "EntityTemplate.__init__", file=rp.rel, line=raises[0].lineno, detail="instance-output-collision.guards",
                expected="exactly: block is an instance, port is an output, root already written", found=("extra " + str(extra) if extra else "") + (" missing " + str(missing) if missing else "") or "ok")
-    t = src(bl)
+    t = P.T(bl)
     ok = "written_in[sig_root] = block" in t and "sig_root: Signal = sig._root" in t or ("sig_root = sig._root" in t and "written_in[sig_root] = block" in t)
     run.ob(ok, "EntityTemplate.__init__", file=rp.rel, line=bl.lineno, detail="instance-output-recorded", expected="written_in[sig._root] = block", found="ok" if ok else "changed")
     # traversal
     for name, must in (("Block.all_contexts", ["yield ctx", "yield from sub.all_contexts()"]), ("Block.all_blocks", ["yield self", "yield from sub.all_blocks()"])):
         f = rp.func(name)
-        t = src(f.node)
+        t = P.T(f.node)
         ok = all(x in t for x in must)
         run.ob(ok, name, file=rp.rel, line=f.node.lineno, detail="recursive", expected="own items and all nested sub-blocks", found="ok" if ok else "changed")
     run.end()
@@ -196,16 +197,16 @@ def rule_local(run):
     pm = gen.parents
     chk = gen.func("ConvertInstance.apply.<locals>.check_variables_and_temporaries")
     first = chk.node.body[0]
-    ok = isinstance(first, ast.Assert) and src(first.test) == "not isinstance(obj, Variable)"
+    ok = isinstance(first, ast.Assert) and P.T(first.test) == "not isinstance(obj, Variable)"
     run.ob(ok, "ConvertInstance.apply[Concurrent]", file=gen.rel, line=chk.node.lineno, detail="no-variables", expected="unconditional `assert not isinstance(obj, Variable)`", found=src(first)[:70])
     ap = gen.func("ConvertInstance.apply")
     applied = any(isinstance(c.func, ast.Attribute) and c.func.attr in ("visit_objects", "visit_referenced_objects") and c.args and dotted(c.args[0]) == chk.node.name for c in calls_in(ap.node))
     run.ob(applied, "ConvertInstance.apply[Concurrent]", file=gen.rel, line=ap.node.lineno, detail="applied", expected="check applied to the whole concurrent context", found="ok" if applied else "not applied")
     ft = gen.func("IrGenerator.convert_sequential.<locals>.find_temporaries")
     top = [s for s in ft.node.body if isinstance(s, ast.If)]
-    ok = bool(top) and src(top[0].test) == "isinstance(obj, Temporary)"
+    ok = bool(top) and P.T(top[0].test) == "isinstance(obj, Temporary)"
     run.ob(ok, "convert_sequential.find_temporaries", file=gen.rel, line=ft.node.lineno, detail="all-views", expected="every Temporary (root, slice or element) is examined", found=src(top[0].test) if top else "missing")
-    t = src(ft.node)
+    t = P.T(ft.node)
     ok = "parent = obj._root" in t and "parent not in temp_replacement" in t and any(isinstance(r, ast.Raise) for r in walk_local(ft.node))
     run.ob(ok, "convert_sequential.find_temporaries", file=gen.rel, line=ft.node.lineno, detail="inherit-rejected", expected="reading a temporary that the always block did not write raises, keyed by root", found="ok" if ok else "changed")
     cs = gen.func("IrGenerator.convert_sequential")
@@ -214,7 +215,7 @@ def rule_local(run):
     run.ob(ok, "IrGenerator.convert_sequential", file=gen.rel, line=cs.node.lineno, detail="find-then-replace", expected="find over all referenced objects of the always block, then replace in both blocks", found=str(order))
     vh = run.idx.mod(VH)
     d = vh.func("VhdlScope.declare")
-    asserts = [a for a in walk_local(d.node) if isinstance(a, ast.Assert) and "Variable, Temporary" in src(a.test)]
+    asserts = [a for a in walk_local(d.node) if isinstance(a, ast.Assert) and "Variable, Temporary" in P.T(a.test)]
     if not asserts:
         raise AnalysisError("scope-sharing assertion of VhdlScope.declare not found")
     g = guards(d.node, asserts[0], vh.parents)
